@@ -58,6 +58,8 @@ var PatternTemplates = []string{
 	"/ads/banner", "ads", "/ads^", "banner.js|", ".js|", "?q=", "=http", "/path/*/img", "^ads^", "*ads*",
 	"/Ads/b", "ADS.JS", "/abcde", "ababa", "babab", "/banner|", "|ws://", "|http", "://", "^", "*", "|", "||", "",
 	"/track", "/track/*.gif", "pixel.gif|", "ads_banner", "ads%20", "/ads.", "js", "a", "/x?ads=1", "/HOST.",
+	// Runs of wildcards and wildcards next to other operators.
+	"||HOST/**", "/ads/***", "||HOST^**", "ads**banner", "**ads", "||HOST/*/*", "*/ads/*", "|*ads", "ads*|", "^*^", "/banner**|",
 }
 
 // ClientNames are $client names with their textual forms.
@@ -73,6 +75,10 @@ var ClientNames = []Client{
 	{Text: "Zed", Name: "Zed"},
 	{Text: "alice-pc", Name: "alice-pc"},
 	{Text: "Bob", Name: "Bob"},
+	// Other spellings of names listed above.
+	{Text: `"Mom"`, Name: "Mom"},
+	{Text: `'kids'`, Name: "kids"},
+	{Text: `'Bob'`, Name: "Bob"},
 }
 
 func mustPrefix(s string) netip.Prefix {
@@ -237,13 +243,9 @@ func AddRandomMods(rng *rand.Rand, s *Spec, k ModKinds, p float64) {
 				cl = ClientNets[rng.Intn(len(ClientNets))]
 			}
 			cl.Neg = rng.Intn(3) == 0
-			dup := false
-			for _, e := range s.Clients {
-				if e.Text == cl.Text {
-					dup = true
-				}
-			}
-			if !dup {
+			// The same client may be listed twice (also in another spelling).
+			s.Clients = append(s.Clients, cl)
+			if rng.Intn(8) == 0 {
 				s.Clients = append(s.Clients, cl)
 			}
 		}
